@@ -123,12 +123,39 @@ def runAll (fmt : Fmt) : List Reg → List Telegram → List String
   | _, [] => []
   | regs, t :: ts => let (regs', evs) := process fmt regs t; renderEvs evs :: runAll fmt regs' ts
 
+/-- a step of a history: a telegram, or the owner of a registration replacing the contents of its filter and address
+lists in place (`cb.address_filters[:] = …`; the lists are public attributes of the returned `Callback`) -/
+inductive Item where
+  | tg (t : Telegram)
+  | edit (id : Nat) (filters : List Filter) (addrs : List DevAddr)
+
+def editReg (id : Nat) (fs : List Filter) (as : List DevAddr) (r : Reg) : Reg :=
+  if r.id == id then { r with filters := fs, addrs := as } else r
+
+def runItems (fmt : Fmt) : List Reg → List Item → List String
+  | _, [] => []
+  | regs, .tg t :: is => let (regs', evs) := process fmt regs t; renderEvs evs :: runItems fmt regs' is
+  | regs, .edit id fs as :: is => "E" :: runItems fmt (regs.map (editReg id fs as)) is
+
+def parseItem (s : String) : Option Item :=
+  match s.splitOn ":" with
+  | ["E", id, fs, as] => do
+    let id ← id.toNat?
+    let fl ← (splitNE fs "|").mapM (fun p => do
+      let txt ← parseDotted p
+      match parseFilter txt with
+      | .ok f => some f
+      | .error _ => none)
+    let al ← (splitNE as ",").mapM parseAddr
+    pure (.edit id fl al)
+  | _ => (parseTelegram s).map .tg
+
 -- DRIVER: c34 => XknxVerif.Callbacks.handle
-/-- `run <fmt> <reg;reg;…|-> <tg;tg;…>` → per telegram the ordered events (`ids…`, `D` = device processing), `;`-joined -/
+/-- `run <fmt> <reg;reg;…|-> <item;item;…>` (item = telegram `I|O:addr` or edit `E:id:filters:addrs`) → per telegram the ordered events (`ids…`, `D` = device processing), `;`-joined -/
 def handle : List String → String
   | ["run", f, rs, ts] =>
-    match parseFmt f, (splitNE rs ";").mapM parseReg, (splitNE ts ";").mapM parseTelegram with
-    | some fmt, some regs, some tgs => ";".intercalate (runAll fmt regs tgs)
+    match parseFmt f, (splitNE rs ";").mapM parseReg, (splitNE ts ";").mapM parseItem with
+    | some fmt, some regs, some items => ";".intercalate (runItems fmt regs items)
     | _, _, _ => "bad-op"
   | _ => "bad-op"
 
